@@ -19,7 +19,9 @@ CONSTANTS L,          \* span length in lattice units (even)
           TmidMax,    \* TMIDs range over 0..TmidMax
           MaxN,       \* at most this many rows
           UseTol,     \* TRUE: the code's merge; FALSE: negative model without tolerance
-          Side        \* "left": the code's searchsorted; "right": negative model
+          Side,       \* "left": the code's searchsorted; "right": negative model
+          InvCheck    \* "merged": time_at's range check against merged intervals (the code);
+                      \* "entry": strictly inside one row's span (negative model)
 
 IntLeq(x, y) == x <= y
 IntNear(x, y) == (IF x >= y THEN x - y ELSE y - x) <= TolU
@@ -55,6 +57,13 @@ Index(t) == IF Side = "left" THEN S!SearchLeft(Spans, t) ELSE S!SearchRight(Span
 Answer(t) == IF ~S!Accepts(Merged, t) THEN "ValueError"
              ELSE IF Index(t) > Len(tm) THEN "IndexError" ELSE "row"
 
+\* time_at's range check.  On the lattice the phase is a strictly increasing function of time, so
+\* a phase is identified with the instant it is predicted for:
+\*   check = any(self(a) < phase < self(b) for a, b in self.intervals)   else ValueError
+InvAccepts(t) ==
+  IF InvCheck = "merged" THEN \E k \in 1..Len(Merged) : Merged[k].a < t /\ t < Merged[k].b
+  ELSE \E i \in 1..Len(tm) : Spans[i].a < t /\ t < Spans[i].b
+
 \* ---- invariants (clauses of C08)
 \* the loop, run step by step, ends with exactly the declared union
 MergeLoopIsDeclared ==
@@ -73,5 +82,10 @@ OutsideRaises ==
 \* inside a tolerated (<= 1 ms) gap the call neither raises nor crashes
 GapNoCrash ==
   pc = "done" => \A t \in Times : S!InToleratedGap(Spans, t) => Answer(t) = "row"
+\* time_at accepts exactly the phases predicted strictly inside a declared interval: in
+\* particular the instant where two rows touch (and a tolerated gap) is invertible
+InverseRange ==
+  pc = "done" => \A t \in Times :
+     InvAccepts(t) <=> (\E iv \in S!DeclaredMerge(Spans) : iv.a < t /\ t < iv.b)
 \* vacuity guards: reported through TLCGet/TLCSet counters at the end
 =============================================================================
